@@ -323,6 +323,9 @@ def c01_catalogue(quick):
         big = [dict(u) for u in sm['basic']]
         big[1] = dict(big[1], pad=pad)
         out.append(scenario('sitemaps-robots-%dk' % (pad // 1000), big, dict(sitemaps=1), N=1))
+    # a sitemap without the (optional) XML declaration
+    nd = [dict(u, nodecl=1) if u['kind'] == 'sitemap' else dict(u) for u in sm['basic']]
+    out.append(scenario('sitemaps-without-xml-declaration', nd, dict(sitemaps=1), N=1))
     out.append(scenario('sitemaps-basic-L1', sm['basic'], dict(sitemaps=1, level=1), N=1))
     out.append(scenario('sitemaps-basic-L2', sm['basic'], dict(sitemaps=1, level=2), N=1))
     # the answer to a page arrives in two parts (head, body) while another worker's redirect is handled in between
